@@ -234,6 +234,9 @@ pub fn cases(prop: &str, tier: Tier, seed: u64) -> Vec<CaseDesc> {
             out.extend(with_scenario(disk_corpus(false), "rt:emit,gc"));
             out.extend(with_scenario(g("names", 4000, 150_000), "rt:emit,gc"));
             out.extend(with_scenario(g("customs", 500, 20_000), "rt:emit,gc"));
+            // synthetic names switched on: the names the input gives must still win
+            out.extend(with_scenario(crate::gen::gen_specs("names", seed ^ 0x5e7, if q { 1500 } else { 60_000 }), "rt:emit,gc;cfg=30"));
+            out.extend(with_scenario(disk_corpus(false), "rt:emit,gc;cfg=30"));
         }
         "C19" => {
             out.extend(with_scenario(disk_corpus(false), "rt:emit,gc,probe,onparse"));
@@ -322,6 +325,21 @@ pub fn cases(prop: &str, tier: Tier, seed: u64) -> Vec<CaseDesc> {
             }
         }
         _ => {}
+    }
+    // The properties are not about one configuration: a sample of the generated cases of the round-trip and GC
+    // properties is run again under non-default switch combinations (bits: 1 dwarf, 2 names, 4 synthetic names,
+    // 8 strict validation, 16 producers, 64 code-transform preservation; only_stable_features stays off because
+    // it changes which inputs are accepted).
+    if matches!(prop, "C01" | "C03" | "C04" | "C06" | "C07" | "C08" | "C19" | "C20") {
+        const MASKS: [u32; 8] = [0, 30, 91, 18, 90, 10, 24, 95];
+        let extra: Vec<CaseDesc> = out
+            .iter()
+            .filter(|c| c.scenario.starts_with("rt:") && !c.scenario.contains("cfg="))
+            .enumerate()
+            .filter(|(i, _)| i % 6 == 3)
+            .map(|(i, c)| CaseDesc { spec: c.spec.clone(), scenario: format!("{};cfg={}", c.scenario, MASKS[(i / 6) % MASKS.len()]) })
+            .collect();
+        out.extend(extra);
     }
     out
 }
